@@ -180,6 +180,7 @@ pub struct CcSummary {
     pub nsat: usize,
     pub returned: Vec<Vec<usize>>,
     pub decoded: bool,
+    pub instances: usize,
 }
 
 pub fn cc_summaries(log: &[Ent]) -> Vec<CcSummary> {
@@ -188,7 +189,7 @@ pub fn cc_summaries(log: &[Ent]) -> Vec<CcSummary> {
     for e in log {
         match e {
             Ent::New(i) => {
-                m.insert(*i, CcSummary { labels: vec![], att: vec![], range: false, calls: 0, nsat: 0, returned: vec![], decoded: false });
+                m.insert(*i, CcSummary { labels: vec![], att: vec![], range: false, calls: 0, nsat: 0, returned: vec![], decoded: false, instances: 1 });
             }
             Ent::Encode { inst, range, labels, att, arglit, .. } => {
                 if let Some(s) = m.get_mut(inst) {
@@ -226,7 +227,31 @@ pub fn cc_summaries(log: &[Ent]) -> Vec<CcSummary> {
             _ => {}
         }
     }
-    m.into_values().collect()
+    // the bound of C18 is per query and per component: add up the solver instances that worked on the same component
+    let mut merged: BTreeMap<(Vec<usize>, Vec<(usize, usize)>), CcSummary> = BTreeMap::new();
+    let mut res = vec![];
+    for s in m.into_values() {
+        if !s.decoded {
+            res.push(s);
+            continue;
+        }
+        let mut key_labels = s.labels.clone();
+        key_labels.sort();
+        match merged.get_mut(&(key_labels.clone(), s.att.clone())) {
+            Some(t) => {
+                t.calls += s.calls;
+                t.nsat += s.nsat;
+                t.returned.extend(s.returned.iter().cloned());
+                t.range |= s.range;
+                t.instances += 1;
+            }
+            None => {
+                merged.insert((key_labels, s.att.clone()), s);
+            }
+        }
+    }
+    res.extend(merged.into_values());
+    res
 }
 
 pub struct Explored {
@@ -399,7 +424,7 @@ pub fn cmd_static(a: &Args) {
                             for ((base, c), (encs, mult)) in &by_cc {
                                 lines.push(json!({"ev": "cc", "sem": sem, "kind": kind, "encs": encs, "base": base,
                                     "labels": c.labels, "att": c.att.iter().map(|(x, y)| vec![*x, *y]).collect::<Vec<_>>(),
-                                    "range": c.range, "calls": c.calls, "nsat": c.nsat, "returned": c.returned, "decoded": c.decoded,
+                                    "range": c.range, "calls": c.calls, "nsat": c.nsat, "returned": c.returned, "decoded": c.decoded, "instances": c.instances,
                                     "mult": mult}).to_string());
                             }
                         }
